@@ -1,5 +1,78 @@
-import SemVerif.Spec.Preds
-import SemVerif.Inventory
-/-! # Property C19 — theorems (under construction) -/
+import SemVerif.Props.C06
+import SemVerif.Props.C18
+import SemVerif.Lemmas.ExtEvents
+/-!
+# Property C19 — extension expressions are opaque leaves evaluated once, in place
+
+For the harness extension (allocates a register, pushes one `ExtendedExpression(tag, register)`
+instruction through the block interface, returns a register result of the type the leaf carries).
+
+`C19`: on the model's result the output predicate of the property reports nothing, for every
+program.  Its three clauses:
+* accepted programs — the evaluation of every extension leaf is an *event* of the denotation, so
+  `T2` places every `ExtendedExpression` instruction at its position in evaluation order (between the
+  calls, declarations and branches around it), exactly once; and the operand / initialiser /
+  argument / condition side / return value read at that position is the leaf itself (`.ext tag`),
+  i.e. the returned register is used verbatim;
+* accepted programs — the `ExtendedExpression` instructions of a function's root stack are exactly
+  the extension leaves of the source function in evaluation order (`evTags_abstractStack`,
+  `evTags_specStmts`: the fold keeps the operands of a chain in order);
+* every program — every block's stack is an order-preserving subsequence of its parent's
+  (`C18_subseq_function`), so an instruction pushed through the block interface is in the stack of
+  the block being analysed and of every ancestor.
+Type checking of the returned type "like any other operand" is part of T1 (the rule checker types
+an extension leaf by the type it carries).
+-/
 namespace SemVerif
+
+/-- **C19** — the output predicate of the property holds on the model's result for every program -/
+theorem C19 (p : Program) : P_C19 p (run p) = [] := by
+  unfold P_C19
+  split
+  · rfl
+  · rw [List.append_eq_nil_iff]
+    constructor
+    · split
+      · rename_i h
+        have ha : (run p).accepted = true := by
+          unfold acceptedWF at h; simp only [Bool.and_eq_true] at h; exact h.1
+        obtain ⟨hnp, he⟩ := (accepted_iff _).mp ha
+        rw [cmpRendered_nil _ _ _ (denotePairs_eq p hnp he), List.nil_append, List.flatMap_eq_nil_iff]
+        rintro ⟨⟨f, b⟩, i⟩ hx
+        have hfb := List.fst_mem_of_mem_zipIdx hx
+        have heq := map_eq_zip (fun b : Block => abstractStack b.context) (specStmts false p.rglobals) _ _ (T2 p hnp he) (f, b) hfb
+        dsimp only at heq ⊢
+        have : b.context.filterMap Instr.extTag = f.extLeaves.map (·.1) := by
+          rw [← evTags_abstractStack, ← heq, evTags_specStmts]
+        rw [this]
+        simp
+      · rfl
+    · rw [List.flatMap_eq_nil_iff]
+      rintro ⟨b, i⟩ hx
+      have hb := List.fst_mem_of_mem_zipIdx hx
+      have hr : (run p).roots = p.fns.map fun f => (functionBody (pass2 p (pass1 p GState.init)).globals f).root := by
+        unfold run; simp [List.map_map, Function.comp_def]
+      rw [hr, List.mem_map] at hb
+      obtain ⟨f, _, rfl⟩ := hb
+      dsimp only
+      rw [C18_subseq_function]
+      rfl
+
+/-- a function with extension leaves in a chain, as a call argument and in a nested block -/
+def exampleExt : Program :=
+  [.fn ⟨['g'], [(['a'], .prim .u8)], .prim .u8, [.ret (.mk (.var ['a']) none)]⟩,
+   .fn ⟨['m'], [], .prim .u8,
+      [.letB ⟨['x'], false, none, .mk (.ext 7 .u8) (some (.plus, .mk (.lit (.u8 1)) (some (.multiply, .mk (.ext 8 .u8) none))))⟩,
+       .ifS (.mk (.single (.mk (.lit (.bool true)) none))
+         (.ifb [.letB ⟨['y'], false, none, .mk (.call ['g'] [.mk (.ext 9 .u8) none]) none⟩]) none none),
+       .ret (.mk (.var ['x']) none)]⟩]
+
+/-- non-vacuity: the example is accepted; its extension events are 7, 8, 9 in evaluation order and
+the initialiser of `x` is `ext7 + (1 * ext8)` -/
+example : (run exampleExt).accepted = true ∧
+    ((specStmts true exampleExt.rglobals) <$> exampleExt.fnDecls).getLast?.map (fun l => l.map (DStmt.render DTree.str)) =
+      some ["eval ext7", "eval ext8", "let v0 = (ext7 plus (1u8 multiply ext8))", "branch true", "eval ext9",
+            "do g(ext9)", "let v1 = g(ext9)", "return v0"] := by
+  constructor <;> decide +kernel
+
 end SemVerif
